@@ -86,7 +86,8 @@ RULE = (
     "every pair the Lean model (fed the real urlsplit components and split_suffix answers) must "
     "return the same verdicts as the implementation: Under (as written / lower-cased hosts) against "
     "the independent Python reading, prefix of cleaned stems, prefix of raw stems, string prefix of "
-    "url_to_lru, string prefix of the cleaned serialisation, names-hypothesis. Non-trivial case = "
+    "url_to_lru, string prefix of the cleaned serialisation, names-hypothesis, Under with the path segments read as "
+    "they are (UnderRaw, the hypothesis of the theorems about the strings url_to_lru returns). Non-trivial case = "
     "the batch contains a pair with v strictly under u and a pair not under u; distinct = distinct "
     "(u, batch, mode). Pair counts are in the distribution (pairs, pairs-under, pairs-prefix, ...). "
     "Public-suffix-list families (cases with 'psl', right after the corpus; the corpus goes the same way): from the "
@@ -121,19 +122,31 @@ TRUSTED = [
     for t in B.TRUSTED
 ]
 ASSUMPTIONS = [
-    "C08 clause used as hypothesis (SplitLaw) by the theorems with an abstract split_suffix: its parts re-join to the lower-cased host; checked on every URL of this run. The *_psl theorems assume nothing about split_suffix (it is the model of suffix_trie.py on the regenerated list: splitLaw_psl, sameSuffixSplit_of_outside); what ties them to the code is the per-run obligation that the real split_suffix answers like that model on every host of the public-suffix-list families and of the corpus (op lru_pairs_psl, a disagreement is a broken correspondence)",
+    "C08 clause used as hypothesis (SplitLaw) by the theorems with an abstract split_suffix: its parts re-join to the lower-cased host; checked on every URL of this run. The *_psl theorems assume nothing about split_suffix (it is the model of suffix_trie.py on the regenerated list: splitLaw_psl, sameSuffixSplit_of_outside, split_nobar_psl); what ties them to the code is the per-run obligation that the real split_suffix answers like that model on every host of the public-suffix-list families and of the corpus (op lru_pairs_psl, a disagreement is a broken correspondence)",
     "reading: 'subdomain' = whole-label suffix of the dotted host between DNS names (an IPv4 literal / bracketed literal has no subdomains: hypothesis NamesOrEqual); 'extends / may add' presuppose that u has nothing later in the hierarchy host -> path -> query -> fragment; the forward law is demanded for u without userinfo (userinfo stems come last; the quantifier's universe has none); empty path stems aside = clean_trailing_path on both sides; suffix-aware converse compares hosts lower-cased; 'DNS name', 'IP literal' and 'public suffix' are read by the oracle independently of ural (narrow special-host definition and the publicsuffix.org algorithm scanned over the regenerated list, harness/props/C08.py), never from is_special_host / split_suffix",
+    "reading of the clause 'the serialized LRU of u is a string prefix of that of v': for the string url_to_lru RETURNS (empty path stems kept) it is demanded — and proved — when v's path segments read as they are, empty ones included, extend u's (UnderRaw; implies Under); with 'empty path stems aside' carried over from the first clause it is stated — and proved — for serialize_lru(clean_trailing_path(lru_stems(.))), a string no ural function returns. For url_to_lru under plain Under it is FALSE (url_to_lru('http://a.com/') = 's:http|h:com|h:a|p:|' is no prefix of url_to_lru('http://a.com/x') = 's:http|h:com|h:a|p:x|': theorem raw_lru_not_prefix_witness) and not demanded",
 ]
 UNPROVED = (
     "the *_string theorems state the laws for URL strings with the modelled parser inside (the Lean parser is compared "
-    "with CPython on every URL of the universe, not proved equal to it); forward direction with suffix_aware=True when the ancestor's host lies INSIDE the public suffix of the "
+    "with CPython on every URL of the universe, not proved equal to it); the clause 'the serialized LRU of u is a string prefix "
+    "of that of v' is proved for url_to_lru itself only under UnderRaw (path segments as they are: lru_prefix_of_under_raw, "
+    "url_to_lru_prefix_of_under_string, *_raw_psl*), and under Under only for the serialisation of the CLEANED stems "
+    "(lru_prefix_of_under*, a string no ural function returns); for url_to_lru under Under it is false as soon as u has an empty "
+    "path stem that v does not continue (http://a.com/ vs http://a.com/x: raw_lru_not_prefix_witness); "
+    "forward direction with suffix_aware=True when the ancestor's host lies INSIDE the public suffix of the "
     "descendant's host and the two public suffixes differ (http://uk vs http://a.co.uk; http://kawasaki.jp vs "
-    "http://city.kawasaki.jp): false by design (theorems fullForwardSuffixAware_false, kf_inside_suffix_psl, known "
-    "finding KF-C13-1). The region is delimited by the public suffix LIST (outsideSuffixT / SameSuffixSplit of the "
+    "http://city.kawasaki.jp): false by design (theorems fullForwardSuffixAware_false, kf_inside_suffix_psl — Lean witnesses on "
+    "TOY suffix lists (a hand-written split / a 7-rule list); the finding is reproduced on the implementation with the real list "
+    "on every run —, known finding KF-C13-1). The region is delimited by the public suffix LIST (outsideSuffixT / SameSuffixSplit of the "
     "model of suffix_trie.py in Lean, the publicsuffix.org algorithm scanned over the regenerated list in the oracle), "
     "not by the answers of the implementation's split_suffix; outside of it the law is proved "
-    "(stems_prefix_of_under_psl: DNS names without leading / trailing dot and without '%') and demanded by the oracle. "
-    "It is counted in the distribution as 'pairs-kf-region' and explored by the oracle only for the converse"
+    "(stems_prefix_of_under_psl: equal hosts of any kind, or DNS names without leading / trailing dot and without '%') and demanded by the oracle. "
+    "It is counted in the distribution as 'pairs-kf-region' and explored by the oracle only for the converse. "
+    "The suffix-aware converse (under_of_stems_prefix_sa) takes C08's re-join clause for both hosts as a hypothesis (SplitLaw; a theorem for "
+    "suffix_trie.py on DNS names: splitLaw_psl) and is false without it: http://a.co.uk. has the suffix-aware stems of http://a.co.uk "
+    "(converse_needs_splitLaw; the loss KF-C12-2; hosts with a trailing dot are outside the universe of the quantifier). "
+    "url_to_lru_prefix_iff (stem prefix <=> string prefix of url_to_lru) is for suffix_aware=False and any split_suffix; "
+    "url_to_lru_prefix_iff_psl for both modes with suffix_trie.py inside"
 )
 
 SCHEMES = ["http", "https"]
